@@ -161,9 +161,11 @@ class FuncTr:
             if len(e.ops) != 1:
                 raise Unsupported("comparison chain")
             op, l, r = e.ops[0], e.left, e.comparators[0]
+            if isinstance(op, (ast.Is, ast.IsNot)) and not (isinstance(r, ast.Constant) and r.value is None):
+                # identity of two objects: records carry their identity, so structural equality decides it
+                t = "(py_eq %s %s)" % (self.expr(l), self.expr(r))
+                return t if isinstance(op, ast.Is) else "(py_not %s)" % t
             if isinstance(op, (ast.Is, ast.IsNot)):
-                if not (isinstance(r, ast.Constant) and r.value is None):
-                    raise Unsupported("is/is not with non-None")
                 return "(%s %s)" % ("py_is_none" if isinstance(op, ast.Is) else "py_is_not_none", self.expr(l))
             table = {ast.Lt: "py_lt", ast.Eq: "py_eq", ast.NotEq: "py_ne", ast.In: "py_in", ast.NotIn: "py_not_in"}
             for k, f in table.items():
@@ -221,6 +223,19 @@ class FuncTr:
                 return "(py_attr %s %s)" % (self.expr(args[0]), cstr(args[1].value))
             if f.id in EXC_CLASSES:
                 return "(PExn %s)" % cstr(f.id)
+            if f.id in ("any", "all") and len(args) == 1 and isinstance(args[0], ast.GeneratorExp):
+                g = args[0]
+                if len(g.generators) != 1 or g.generators[0].is_async:
+                    raise Unsupported("any/all over several generators")
+                gen = g.generators[0]
+                cond = " && ".join(["py_truth %s" % self.expr(c) for c in gen.ifs] + ["py_truth %s" % self.expr(g.elt)])
+                if f.id == "any":
+                    return "(PBool (existsb (fun x_ => %s%s) (py_iter %s)))" % (
+                        self.bind_target(gen.target, "x_"), cond, self.expr(gen.iter))
+                if gen.ifs:
+                    raise Unsupported("all with a filter")
+                return "(PBool (forallb (fun x_ => %s%s) (py_iter %s)))" % (
+                    self.bind_target(gen.target, "x_"), cond, self.expr(gen.iter))
             raise Unsupported("call of %s" % f.id)
         if isinstance(f, ast.Attribute):
             if f.attr == "items" and not args:
